@@ -11,7 +11,7 @@ Same(i) == LET s == Tr[i].st IN
   /\ (~full' => Len(hq') = s.hq)
   /\ deliv' = [j \in 1..Len(s.deliv) |-> Item(s.deliv[j].k, s.deliv[j].id, s.deliv[j].n, s.deliv[j].e)]
 Step1(e) == CASE e.a = "Accept" -> Accept [] e.a = "Ready" -> Ready(e.k) [] e.a = "Notify" -> Notify(e.kind, e.k)
-              [] e.a = "Hold" -> Hold [] e.a = "Release" -> Release [] e.a = "Flood" -> Flood
+              [] e.a = "Hold" -> Hold [] e.a = "Release" -> Release [] e.a = "Flood" -> Flood [] e.a = "Stall" -> Stall
               [] e.a = "Teardown" -> Teardown [] e.a = "Connect" -> Connect [] OTHER -> FALSE
 TMatch == /\ l < Len(Tr) /\ Tr[l+1].act.a # "init" /\ Tr[l+1].skip = ""
           /\ Step1(Tr[l+1].act) /\ Same(l+1) /\ l' = l + 1 /\ UNCHANGED rej
